@@ -105,7 +105,7 @@ def flMember (st : FlSt) (q : Bytes) : Outcome (FlSt × Bytes) :=
       match field with
       | h :: l :: qq :: after =>
         if h = 35 ∧ isLetter l ∧ qq = 34 then
-          if st.tagStarts.length ≥ 32 then .err
+          if st.tagStarts.length ≥ 52 then .err
           else if st.letters.contains l then .err
           else match eatColon after with
             | .ok r => match verifyChar 91 r with
